@@ -93,7 +93,7 @@ def compare(prog, case, real, spans, backend):
 
 
 def run_programs(programs, rep, backends=("vm",), limits=None, pool=None, family_of=None, spec_opts=None,
-                 prop_filter=None, vm_trace=None):
+                 prop_filter=None, vm_trace=None, reps=1):
     """vm_trace: predicate on a program; its VM run is recorded instruction by instruction and validated against HmsVM"""
     """Full pipeline.  Returns list of (prog, backend, verdict) for callers that need more."""
     cases = run_spec(programs, rep, **(spec_opts or {}))
@@ -127,15 +127,31 @@ def run_programs(programs, rep, backends=("vm",), limits=None, pool=None, family
                 a["limits"] = limits
             reqs.append({"op": "run", "id": len(reqs), "a": a})
             meta.append((p, b))
+            # repetitions of the same sources (C14): other GOMAXPROCS, seeded yields in the hooks, other process histories
+            for k in range(1, reps):
+                ak = dict(a, procs=(1, 4, 16)[k % 3])
+                if b == "vm" and k % 3 == 2 and not ak.get("trace"):
+                    ak["trace"] = True
+                    ak["jitter"] = C.seed() * 1000 + k
+                reqs.append({"op": "run", "id": len(reqs), "a": ak})
+                meta.append((p, b))
     pool = pool or C.Pool(C.build_worker())
     res = pool.map(reqs, timeout=25)
     results = []
+    firsts = {}
     for (p, b), r in zip(meta, res):
         rep.count()
         src, spans = rendered[p["id"]]
         c = cases[p["id"]]
         rep.nontrivial(src)
         v = compare(p, c, r, spans, b)
+        if reps > 1 and v is None and "r" in r:
+            o = r["r"]
+            obs = {"out": o.get("out"), "outcome": o.get("outcome"), "triggers": o.get("triggers"),
+                   "diags": sorted(json.dumps(d, sort_keys=True) for d in o.get("diags", []))}
+            f = firsts.setdefault((p["id"], b), obs)
+            if f != obs:
+                v = ("repetition-differs", {"first": f, "now": obs})
         results.append((p, b, v, r))
         if v is not None:
             kind, detail = v
